@@ -188,7 +188,13 @@ Spec == Init /\ [][Next]_vars
 Fresh == lastGet.fresh
 FreshIntended == proto = "intended" => Fresh
 
-\* every history ending with a getter is a replay script; stale ones are the predictions
+\* How a setter hands a new version of an input over to the object: a NEW object (new address), or the SAME
+\* object whose content was updated before the call ("its address is kept unchanged, even if its contents may
+\* have been updated", documentation of setData / setLHS).  The abstract transition Set(s) is the same (a new
+\* version is installed and what depends on it is invalidated): both styles are replayed on the real object.
+Styles == {"address", "inplace"}
+
+\* every history ending with a getter is a replay script (one per style); stale ones are the predictions
 EmitScripts == (hist = <<>> \/ hist[Len(hist)].op # "get" \/ proto # "transcribed")
-               \/ PrintT(ToJson([mode |-> mode, hist |-> hist, predicted_fresh |-> lastGet.fresh]))
+               \/ \A st \in Styles : PrintT(ToJson([mode |-> mode, style |-> st, hist |-> hist, predicted_fresh |-> lastGet.fresh]))
 =============================================================================
